@@ -1186,6 +1186,123 @@ def c15(ctx):
     ctx.cov["samples"] = samples([c for c in cases if c["renders"][0]["sql"] != c["renders"][2]["sql"]] or cases)
 
 
+# ------------------------------------------------------------------------------------ C01
+
+def _txt(h):
+    return bytes.fromhex(h).decode("utf8", "replace")
+
+
+@check("C01")
+def c01(ctx):
+    props.check_props_file(ctx, "Props/C01.v")
+    listed = {k["id"]: k for k in known_for("C01")}
+    known_hit = {}
+    verdicts = Counter()
+    ev = 0
+    nontriv = set()
+
+    def classify(rep, classes, what):
+        """a text that does not read back as composed: recorded finding, outside the quantifier, or violation"""
+        qs = [c for c in classes if c.startswith("Q-")]
+        if qs:
+            verdicts["outside quantifier"] += 1
+            return
+        ds = [c for c in classes if not c.startswith("Q-")]
+        unlisted = [c for c in ds if c not in listed]
+        if ds and not unlisted:
+            for c in ds:
+                known_hit.setdefault(c, rep)
+            verdicts["recorded finding"] += 1
+        else:
+            rep["classes"] = classes
+            ctx.violation(what + (": " + ", ".join(unlisted) if unlisted else ""), rep)
+            verdicts["violation"] += 1
+
+    # ---- A: intent-level programs: what the caller means vs what PostgreSQL's grammar reads
+    n_int = 2500 if ctx.quick() else 60000
+    icases = special_mode_cases(ctx, "c01", ["-n", str(n_int)])
+    icases = [c for c in icases if c.get("kind") != "panic"] if icases else []
+    ctx.cov["intent_cases_by_kind"] = dict(Counter(c["kind"] for c in icases))
+    correspondence(ctx, icases, label="intent programs")
+    reqs, owner = [], []
+    for ci, c in enumerate(icases):
+        seen = set()
+        for r in c["renders"][:4]:
+            if r.get("panic"):
+                ctx.violation("rendering a statement panicked", {"prog": c["prog"][:2000], "panic": r["panic"]})
+                continue
+            if r["err"] is not None:
+                ctx.violation("a statement composed of plain names reports an error", {"prog": c["prog"][:2000], "err": _txt(r["err"])})
+                continue
+            if r["sql"] not in seen:
+                seen.add(r["sql"])
+                reqs.append(f"(readstmt s{r['sql']})")
+                owner.append((ci, r))
+    for (ci, r), a in zip(owner, corr.model_answers(reqs)):
+        c = icases[ci]
+        ev += 1
+        got = _txt(a[4:]) if a.startswith("RS s") else None
+        if got == c["expect"]:
+            verdicts["intent ok"] += 1
+            nontriv.add(c["prog"])
+            continue
+        rep = {"prog": c["prog"][:3000], "options": {"validation": r["v"], "pretty": r["p"]}, "emitted": _txt(r["sql"])[:3000],
+               "expected_reading": c["expect"][:3000],
+               "actual_reading": got[:3000] if got else "(rejected by the statement grammar)"}
+        classify(rep, c["deviations"], "the emitted statement does not read back as the statement that was composed")
+
+    # ---- B: the library's own records (type-directed and grammar-shaped API programs): composed parts vs slots
+    n = 3000 if ctx.quick() else 100000
+    cases = harness_cases(ctx, n, depth=5 if ctx.quick() else 7, hostile=0.0)
+    distribution(ctx, cases)
+    correspondence(ctx, cases, label="API programs")
+    reqs, owner = [], []
+    for ci, c in enumerate(cases):
+        seen = set()
+        for r in c["renders"][:4]:
+            if r.get("panic") or r.get("missing") or r["err"] is not None or r["sql"] in seen:
+                continue
+            seen.add(r["sql"])
+            reqs.append(f"(c01 {c['dump']} s{r['sql']})")
+            owner.append((ci, r))
+    for (ci, r), a in zip(owner, corr.model_answers(reqs)):
+        c = cases[ci]
+        if not a.startswith("C01 "):
+            ctx.obligation("every c01 request is answered by the model", False, a[:300])
+            continue
+        for vi, v in enumerate(a[4:].split(" | ")):
+            p = v.split(" ")
+            if p[0] == "skip":
+                continue
+            ev += 1
+            if p[0] == "ok":
+                verdicts["records ok" if vi == 0 else "nested ok"] += 1
+                if vi == 0:
+                    nontriv.add(c["dump"])
+                continue
+            sql = _txt(r["sql"])
+            classes = [x for x in (p[3] if len(p) > 3 else "").split(",") if x]
+            if "\x00" in sql:
+                classes.append("D9-literal-NUL")
+            rep = {"prog": c["prog"][:3000], "options": {"validation": r["v"], "pretty": r["p"]},
+                   "statement": "top level" if vi == 0 else f"nested statement #{vi} (model text)",
+                   "emitted": sql[:3000], "composed": _txt(p[1][1:])[:3000],
+                   "read_back_as": _txt(p[2][1:])[:3000] if p[0] == "mismatch" else "(rejected by the statement grammar)"}
+            classify(rep, classes, "a composed part is missing, duplicated, moved or the text is not a statement")
+    for kid, rep in sorted(known_hit.items()):
+        ctx.known.append(f"{kid} e.g. {rep['prog'][:300]} is emitted as {rep['emitted'][:300]!r}")
+    ctx.cov["evaluations"] = ev
+    ctx.cov["distinct_nontrivial"] = len(nontriv)
+    ctx.cov["verdicts"] = dict(verdicts)
+    ctx.cov["rule"] = ("A: abstract statements (all slots, repeated calls, aliases, CTEs, set operations, four statement kinds; all "
+                       "leaves distinct names) composed through the API; the text under each option combination is read by the "
+                       "statement reader of Pg/Stmt.v and compared with the intended clause tree. B: reflection-generated and "
+                       "grammar-shaped API programs; the clause tree built from the builder records (Model/C01Eval.v) is compared "
+                       "with the reading of the emitted text, nested statements included; compositions lacking a mandatory part "
+                       "or with empty operand lists are outside the quantifier. non-trivial = distinct statements read back equal")
+    ctx.cov["samples"] = samples(icases)
+
+
 # ------------------------------------------------------------------------------------ C02
 
 @check("C02")
